@@ -154,6 +154,57 @@ claim("C14", "proof", "Lean 4 round-trip theorems over grid/field/collection rec
       COMMON_NOTE + "JSON text encoding of floats is trusted; numpy astype is abstract in the theorems; pickle is monitored on "
       "the real code only.", "DESIGN.md section 6, C14; notes/C14.md")
 
+claim("C07", "proof", "Lean 4 theorems over the controller loop for every tracker list and every (adversarial) schedule + exact/bit-exact trace correspondence",
+      "Controller._run_main_process/run, the fixed stepper's time accounting, TrackerCollection.initialize/handle/finalize and "
+      "the tracker kinds are modelled generically in the number type, the state, the one-step map and the interrupt function "
+      "(Model/Controller.lean, schedules from C09). Theorems, for every tracker list and every schedule oracle: lattice "
+      "invariant, progress and termination (the fuel bound is a theorem), no overshoot, steps = ceil(T/dt - eps) for every run "
+      "that reaches the end - hence N steps and t_final = t_end for whole ranges (also within the loop's own 1e-6 dt "
+      "tolerance) -, final state = steps-fold iterate of the one-step map at lattice times, independence of the read-only "
+      "observers, |t_final - t_end| < dt, initial state untouched, and round-half-even stability under relative error. Real "
+      "Controller runs (numpy, numba source semantics, numba JIT) with recording trackers are compared event by event with the "
+      "model: exactly against Rat for dyadic parameters, bit for bit against Float for decimal ones.",
+      COMMON_NOTE + "IEEE rounding is covered by the stability lemmas and the Float replay only; JIT-fused multiply-add makes "
+      "decimal JIT runs differ in the last bit (judged by the monitors).", "DESIGN.md section 6, C07; notes/C07.md")
+
+claim("C08", "proof", "Lean 4 theorems (pending-window invariant, served exactly once, frame counts, stop handling) + trace correspondence",
+      "Same model as C07 plus storage/data trackers and stop requests. Theorems: handled states are iterates at lattice times, "
+      "per-tracker times strictly increasing, for a constant interval D >= dt the pending-window invariant and served exactly "
+      "once within dt/2 (any list position, any other trackers, any stop behaviour), frame counts floor(T/D)+1 with the "
+      "explicit sliver guard and the general at-most-one-more bound, all due trackers served before a stop propagates (last "
+      "raised exception wins), run ends at the stop time with that state, stop reason reported, every path finalises every "
+      "tracker, exact service for a single tracker with an exact stepper; kernel-proved witnesses for the two known corner "
+      "deviations. Real runs with injected StopIteration/FinishedSimulation at random (tracker, call) positions are compared "
+      "event by event with the model; monitors state the property on every run.",
+      COMMON_NOTE + "Two deviations of the real code from the literal statement are listed as known findings (see "
+      "known_findings.json); served-exactly-once and frame counts are proved for constant schedules, other schedules are "
+      "covered by the generic trace theorems and the correspondence.", "DESIGN.md section 6, C08; notes/C08.md")
+
+claim("C15", "proof", "Lean 4 heap model with invariants by induction over arbitrary operation histories + aliasing-relation correspondence",
+      "Buffers with an allocation counter, views (buffer, offset, length), objects as mutable references to views, and the "
+      "operations of fields and collections (construction with/without copy_fields incl. re-linking, component views, slices, "
+      "append, copy, deepcopy/pickle, unary/binary/in-place arithmetic, storage frames) are modelled (Model/Heap.lean). 42 "
+      "theorems by induction over operation lists: well-formedness and the allocation invariant, the frame property, writes "
+      "visible through every alias, collection layout (slot of field k component c), copies/slices/append/arithmetic/operator/"
+      "storage results are fresh and stay disjoint forever, binary operations leave operands unchanged, in-place operations "
+      "touch only valid cells. After every step of random histories on real objects the np.shares_memory relation with "
+      "relative offsets and the values read through every handle are compared with the model; failing histories are shrunk.",
+      COMMON_NOTE + "numpy's view semantics are trusted; arithmetic values are tied by the correspondence only.",
+      "DESIGN.md section 6, C15; notes/C15.md")
+
+claim("C20", "proof", "Lean 4 refinement of MemoryStorage to the log of appended pairs, for every operation sequence + step-by-step correspondence",
+      "MemoryStorage/StorageBase are modelled branch by branch (modes, data shape/dtype/grid checks incl. the read-only and "
+      "cast rules of append, reads, numpy searchsorted, extract_time_range, extract_field/view_field, copy/apply, "
+      "from_collection) plus a world layer with a heap for aliasing. 142 theorems: refinement to the spec log for every "
+      "operation sequence (reads return the appended pairs of the surviving sessions in order), mode semantics (truncate, "
+      "truncate_once then append, append never truncates, readonly disables writing), searchsorted specification, "
+      "extract_time_range = the pairs with a <= t <= b on sorted times and a contiguous slice always, extract/view consistency, "
+      "copy/apply as runs of the target's state machine, stored frames immutable under later writes to sources and read-back "
+      "fields. Random and exhaustive short operation sequences on the real storage are compared with the model after every "
+      "step (times, every frame, error class, buffer identities); an independent Python spec monitor runs on the real code.",
+      COMMON_NOTE + "float64 fields in the model; np.searchsorted on unsorted times mirrors numpy 2.5.3's loop (on sorted times "
+      "every correct search agrees, which is a theorem).", "DESIGN.md section 6, C20; notes/C20.md")
+
 # properties not (yet) decided by the machinery
 NOT_APPLICABLE = {}
 
